@@ -98,6 +98,8 @@ class Ctx(object):
         if n <= 1 or len(items) <= 1:
             return [func(i) for i in items]
         import multiprocessing as mp
+        from vf.seams import dbapi
+        dbapi.scratch_dir()          # created in the parent so that it is also removed by the parent
         pool = mp.get_context('fork').Pool(min(n, len(items)))
         try:
             return pool.map(func, items, chunksize)
